@@ -464,17 +464,45 @@ def stream_integrate(env, rng, counts):
     hdim = sum(numel(s) for kind, _, s in horder if kind == "r")
     h = Case(rng, horder, rng.choice(list(range(0, 2 * hdim + 1))))
     h2 = Case(rng, horder, rng.choice(list(range(0, 2 * hdim + 1))))
-    g, hg = c.build(), h.build()
-    ikind = rng.choice(["h", "h", "neg", "diff"])           # integrand: h, -h, h - h2 (distribute / neg rules)
+    g = c.build()
+    factor_sum = False
+    if rng.random() < 0.45:
+        # measure built as a SUM OF FACTORS q1(all inputs) + q2(some inputs): rank in (dim, 2 dim], not compressed
+        sub = [o for o in c.order if rng.random() < (0.7 if o[0] == "b" else 0.6)]
+        if not any(o[0] == "r" for o in sub):
+            sub.append(next(o for o in c.order if o[0] == "r"))
+        rng.shuffle(sub)
+        sdim = sum(numel(s_) for kind, _, s_ in sub if kind == "r")
+        for _ in range(20):
+            ca = Case(rng, c.order, c.dim)
+            cb = Case(rng, sub, rng.randint(1, max(1, min(sdim, c.dim))))
+            gsum = ca.build() + cb.build()
+            if not isinstance(gsum, Gaussian):
+                break
+            order2 = [("r", k, tuple(d.shape)) if d.dtype == "real" else ("b", k, d.size) for k, d in gsum.inputs.items()]
+            cand = Case(rng, order2, gsum.white_vec.shape[-1], w=np.asarray(gsum.white_vec), P=np.asarray(gsum.prec_sqrt))
+            if cand.block_ok([k for k, _ in cand.layout]):
+                c, g, factor_sum = cand, gsum, True
+                names = [k for k, _ in c.layout]
+                break
+    hg = h.build()
+    # integrand: h, -h, h - h2 (distribute / neg rules), and the ELBO patterns h - q with q the measure OBJECT itself,
+    # an equal but distinct copy of it, q - h, and q alone
+    ikind = rng.choice(["h", "h", "neg", "diff", "p-q", "p-q", "p-q-copy", "q-p", "q"])
     mkind = rng.choice(["gaussian", "gaussian", "mixture"])  # measure: g or t + g (eager_integrate_gaussianmixture)
     route = rng.choice(["Integrate", "Integrate", "exp-mul-reduce"])   # (g.exp() * h).reduce(add, reals)
-    integ = {"h": lambda: hg, "neg": lambda: -hg, "diff": lambda: hg - h2.build()}[ikind]()
+    if ikind == "p-q" and mkind == "gaussian" and rng.random() < 0.4:
+        route = "elbo"                                         # funsor.elbo.Elbo(guide, vars): model.reduce(logaddexp)
+    gcopy = Gaussian(np.array(c.w), np.array(c.P), c.inputs)
+    integ = {"h": lambda: hg, "neg": lambda: -hg, "diff": lambda: hg - h2.build(), "p-q": lambda: hg - g,
+             "p-q-copy": lambda: hg - gcopy, "q-p": lambda: g - hg, "q": lambda: g}[ikind]()
     tb = [(k, n) for k, n in c.batch.items() if rng.random() < 0.7] if mkind == "mixture" else []
     tdata = dy_array(rng, tuple(n for _, n in tb), pool=[-1, -0.5, 0, 0.5, 1])
     meas = (Tensor(tdata, OrderedDict((k, Bint[n]) for k, n in tb)) + g) if mkind == "mixture" else g
     hist = [dict(op="gaussian", **c.describe()),
             dict(op="integrate-gaussian", integrand=h.describe(), integrand2=h2.describe() if ikind == "diff" else None,
-                 integrand_kind=ikind, measure=mkind, tensor=dict(inputs=tb, data=tdata.tolist()), route=route)]
+                 integrand_kind=ikind, measure=mkind, tensor=dict(inputs=tb, data=tdata.tolist()), route=route,
+                 measure_is_sum_of_factors=factor_sum, measure_rank=c.rank, measure_dim=c.dim)]
     rv = frozenset(Variable(k, dom(c.shapes[k])) for k in names)
 
     def expect_of(hc, p, mean, inv):
@@ -498,6 +526,10 @@ def stream_integrate(env, rng, counts):
         def run():
             if route == "Integrate":
                 return Integrate(meas, integ, rv)
+            if route == "elbo":
+                from funsor.elbo import Elbo
+                with Elbo(g, rv):
+                    return hg.reduce(ops.logaddexp, rv)
             return (meas.exp() * integ).reduce(ops.add, rv)
         res = expect_value(counts, "integrate-gauss", run, must, hist)
         if not isinstance(res, (Tensor, Number)):
@@ -523,6 +555,9 @@ def stream_integrate(env, rng, counts):
             total = {"h": expect, "neg": -expect}.get(ikind)
             if ikind == "diff":
                 total = expect - expect_of(h2, p, mean, inv)[0]
+            elif ikind in ("p-q", "p-q-copy", "q-p", "q"):
+                eq = expect_of(c, p, mean, inv)[0]          # E_q[q] from q's own dense parameters
+                total = {"p-q": expect - eq, "p-q-copy": expect - eq, "q-p": eq - expect, "q": eq}[ikind]
             want = float(total) * norm
             got = float(tab[idx])
             if not fclose(got, want, max(1.0, abs(want)), 1e-8):
@@ -546,6 +581,7 @@ def stream_integrate(env, rng, counts):
         cf.kw.setdefault("witness_history", hist)
         raise
     counts(f"integrate:{ikind}:{mkind}:{route}")
+    counts("integrate:measure-" + ("factor-sum" if factor_sum else "single") + ("-wide" if c.rank > c.dim else "-square"))
     counts("integrate:gaussian")
     return ("integrate-gauss", str(c.order), str(horder), c.rank, h.rank)
 
@@ -1301,7 +1337,7 @@ def _correspond(ctx, use_driver=True, volume=None):
     if env.use_driver:
         inverse_stream(ctx, 80 if ctx.tier == "quick" else 800)
     plate_exhaustive(ctx, env)
-    n = volume or (1000 if ctx.tier == "quick" else 16000)
+    n = volume or (900 if ctx.tier == "quick" else 16000)
     for _ in range(n):
         seed = ctx.rng.getrandbits(48)
         try:
